@@ -60,3 +60,209 @@ func init() {
 		Outside: []string{"scripts outside the template family (more leaves, deeper nesting, more than 3 accounts / 1 asset per statement)", "literal (non-variable) amounts: the parser's NumberLiteral is a machine int and is covered in C14"},
 	})
 }
+
+func stdBounds(q, t map[string]interface{}) map[string]map[string]interface{} {
+	return map[string]map[string]interface{}{"quick": q, "thorough": t}
+}
+
+var apiOutside = []string{"scripts outside the template family (more leaves / statements, deeper nesting, more accounts or assets)", "literal (non-variable) amounts: NumberLiteral is a machine int, its conversion is covered in C14", "ANTLR lexer/parser (native)"}
+
+func init() {
+	// ------------------------------------------------------------ C01
+	Register(&Check{
+		ID: "C01", Title: "no unauthorised overdraft",
+		Files: apiFiles, LoadPkgs: apiLoad, InitPkgs: apiInit,
+		Cases: func(tier string) []Case {
+			var cases []Case
+			accs := []string{"a", "b"}
+			o := srcOpts{world: true, unbounded: true, caps: true, allot: true}
+			var srcs []string
+			srcs = append(srcs, srcTrees(1, 1, accs[:1], o)...)
+			two := srcTrees(2, 1, accs, o)
+			three := []string{"{ @a @b @a }", "{ @a { @b @a } }", "{ max %C from { @a @b } @a }", "{ @a allowing overdraft up to %K @a @a }",
+				"{ max %C from @a max %C from @a @a }", "{ 1/2 from { @a @b } 1/2 from @a }"}
+			if tier == "thorough" {
+				srcs = append(srcs, two...)
+				srcs = append(srcs, thin(srcTrees(3, 2, accs, o), 250)...)
+				srcs = append(srcs, three...)
+			} else {
+				srcs = append(srcs, thin(two, 24)...)
+				srcs = append(srcs, three...)
+			}
+			for _, s := range srcs {
+				cases = append(cases, apiCase("C01", "one-statement/fixed", []string{sendFixed("USD", s, "@d")}, nil))
+				cases = append(cases, apiCase("C01", "one-statement/send-all", []string{sendAll("USD", s, "@d")}, nil))
+			}
+			// across statements
+			first := []string{
+				sendFixed("USD", "@a", "@b"), sendFixed("USD", "@b", "@a"), sendAll("USD", "@a", "@d"),
+				"save %N from @a", "save [USD *] from @a", sendFixed("USD", "@a allowing overdraft up to %K", "@d"),
+				sendFixed("USD", "@world", "@a"),
+			}
+			second := []string{
+				sendFixed("USD", "@a", "@d"), sendAll("USD", "{ @a @b }", "@d"), sendFixed("USD", "{ @a @a allowing overdraft up to %K }", "@d"),
+			}
+			if tier == "thorough" {
+				second = append(second, sendFixed("USD", "{ 1/2 from @a 1/2 from @b }", "@d"), sendAll("USD", "@a allowing overdraft up to %K", "@a"),
+					sendFixed("USD", "max %C from { @a @b }", "{ max %C to @a remaining to @d }"))
+			}
+			for _, f := range first {
+				for _, s := range second {
+					cases = append(cases, apiCase("C01", "two-statements", []string{f, s}, nil))
+				}
+			}
+			// account reached through variables (aliasing)
+			for _, alias := range []string{"a", "b"} {
+				cases = append(cases, apiCase("C01", "aliasing", []string{sendFixed("USD", "{ @a $src }", "@d")}, map[string][2]string{"src": {"account", "acc:" + alias}}))
+				cases = append(cases, apiCase("C01", "aliasing", []string{sendAll("USD", "{ $src @a allowing overdraft up to %K }", "@d")}, map[string][2]string{"src": {"account", "acc:" + alias}}))
+			}
+			if tier == "thorough" {
+				for _, f := range first[:4] {
+					for _, g := range first[:4] {
+						cases = append(cases, apiCase("C01", "three-statements", []string{f, g, second[0]}, nil))
+					}
+				}
+			}
+			return cases
+		},
+		Bounds: stdBounds(
+			map[string]interface{}{"statements": "1..2", "source_leaves": "<=3", "depth": "<=2", "destinations": "single account (also an account that is a source)", "numbers": "unbounded integers"},
+			map[string]interface{}{"statements": "1..3", "source_leaves": "<=3 (250 sampled 3-leaf trees)", "depth": "<=2", "numbers": "unbounded integers"}),
+		Assumptions: apiAssumptions, Stubs: apiStubs, Outside: apiOutside,
+	})
+
+	// ------------------------------------------------------------ C02
+	Register(&Check{
+		ID: "C02", Title: "every posting is a real transfer",
+		Files: apiFiles, LoadPkgs: apiLoad, InitPkgs: apiInit,
+		Cases: func(tier string) []Case {
+			var cases []Case
+			accs := []string{"a", "b"}
+			o := srcOpts{world: true, unbounded: false, caps: true, allot: true}
+			srcs := append(srcTrees(1, 1, accs[:1], o), thin(srcTrees(2, 1, accs, o), 16)...)
+			dsts := dstTrees(2, true, false, true)
+			if tier == "thorough" {
+				srcs = append(srcTrees(1, 1, accs, o), srcTrees(2, 1, accs, o)...)
+				srcs = append(srcs, thin(srcTrees(3, 2, accs, o), 60)...)
+				dsts = dstTrees(3, true, true, true)
+			}
+			for i, s := range srcs {
+				n := 3
+				if tier == "thorough" {
+					n = 6
+				}
+				for j := 0; j < n; j++ {
+					d := dsts[(i*7+j*5)%len(dsts)]
+					cases = append(cases, apiCase("C02", "send-fixed", []string{sendFixed("USD", s, d)}, nil))
+				}
+				cases = append(cases, apiCase("C02", "send-all", []string{sendAll("USD", s, dsts[(i*3+1)%len(dsts)])}, nil))
+			}
+			// undefined-by-text corners stay under the positivity/conservation assertions of the interpreter run only
+			for _, d := range dsts {
+				cases = append(cases, apiCase("C02", "kept-vs-shares", []string{sendFixed("USD", "{ @a @b }", d)}, nil))
+			}
+			cases = append(cases, apiCase("C02", "two-assets", []string{sendFixed("USD", "@a", "@d"), "send [EUR *] (\n source = @a\n destination = @e\n)"}, nil))
+			return cases
+		},
+		Bounds: stdBounds(
+			map[string]interface{}{"statements": "1 (one 2-asset script)", "source_leaves": "<=2", "destination_clauses": "<=3, kept in every position", "numbers": "unbounded integers incl. negative balances and caps"},
+			map[string]interface{}{"statements": "1 (one 2-asset script)", "source_leaves": "<=3", "destination_clauses": "<=4, nested depth 2", "numbers": "unbounded integers"}),
+		Assumptions: apiAssumptions, Stubs: apiStubs, Outside: apiOutside,
+	})
+
+	// ------------------------------------------------------------ C04
+	Register(&Check{
+		ID: "C04", Title: "sources drawn in declared order",
+		Files: apiFiles, LoadPkgs: apiLoad, InitPkgs: apiInit,
+		Cases: func(tier string) []Case {
+			var cases []Case
+			accs := []string{"a", "b"}
+			o := srcOpts{world: true, unbounded: true, caps: true, allot: true}
+			srcs := append(srcTrees(1, 1, accs[:1], o), thin(srcTrees(2, 1, accs, o), 30)...)
+			srcs = append(srcs, "{ @a @b @c }", "{ max %C from { @a @b } @c }", "{ @a max %C from { @b @c } }", "max %C from { @a @b allowing overdraft up to %K @world }",
+				"{ max %C from @a max %C from @a @b }", "max %C from { 1/2 from @a 1/2 from @b }", "max %C from @a allowing unbounded overdraft", "max %C from max %C from @a")
+			if tier == "thorough" {
+				srcs = append(srcs, srcTrees(2, 1, accs, o)...)
+				srcs = append(srcs, thin(srcTrees(3, 2, []string{"a", "b", "c"}, o), 400)...)
+				srcs = dedupe(srcs)
+			}
+			for _, s := range srcs {
+				cases = append(cases, apiCase("C04", "fixed", []string{sendFixed("USD", s, "@d")}, nil))
+				cases = append(cases, apiCase("C04", "send-all", []string{sendAll("USD", s, "@d")}, nil))
+			}
+			for _, alias := range []string{"a", "b", "world"} {
+				cases = append(cases, apiCase("C04", "account-variable", []string{sendFixed("USD", "{ $src @a }", "@d")}, map[string][2]string{"src": {"account", "acc:" + alias}}))
+				cases = append(cases, apiCase("C04", "account-variable", []string{sendAll("USD", "{ @b $src }", "@d")}, map[string][2]string{"src": {"account", "acc:" + alias}}))
+			}
+			return cases
+		},
+		Bounds: stdBounds(
+			map[string]interface{}{"statements": 1, "source_leaves": "<=3", "depth": "<=2", "modes": "fixed amount and send-all", "destination": "single account", "numbers": "unbounded integers"},
+			map[string]interface{}{"statements": 1, "source_leaves": "<=3 over 3 accounts (400 sampled)", "depth": "<=2", "modes": "fixed amount and send-all", "numbers": "unbounded integers"}),
+		Assumptions: apiAssumptions, Stubs: apiStubs, Outside: apiOutside,
+	})
+
+	// ------------------------------------------------------------ C05
+	Register(&Check{
+		ID: "C05", Title: "destinations filled in order",
+		Files: apiFiles, LoadPkgs: apiLoad, InitPkgs: apiInit,
+		Cases: func(tier string) []Case {
+			var cases []Case
+			dsts := dstTrees(2, true, true, true)
+			if tier == "thorough" {
+				dsts = dstTrees(4, true, true, true)
+				dsts = append(dsts, "{ max %C to { max %C to { max %C to @d remaining kept } remaining to @e } remaining to @a }",
+					"{ 1/3 to { 1/2 to @d 1/2 kept } 1/3 to { max %C kept remaining to @e } remaining to @a }")
+			}
+			for _, d := range dsts {
+				cases = append(cases, apiCase("C05", "world-source", []string{sendFixed("USD", "@world", d)}, nil))
+			}
+			for _, d := range thin(dsts, 12) {
+				cases = append(cases, apiCase("C05", "send-all-source", []string{sendAll("USD", "{ @a @b }", d)}, nil))
+				cases = append(cases, apiCase("C05", "dest-variable", []string{sendFixed("USD", "@world", "{ max %C to $dst remaining to @d }")}, map[string][2]string{"dst": {"account", "acc:d"}}))
+			}
+			return cases
+		},
+		Bounds: stdBounds(
+			map[string]interface{}{"destination_clauses": "<=3 (2 caps + remaining)", "nesting": "<=2", "kept": "every position", "allotments": "2-3 way", "numbers": "unbounded integers incl. zero/negative/huge caps"},
+			map[string]interface{}{"destination_clauses": "<=5 (4 caps + remaining)", "nesting": "<=3", "kept": "every position", "numbers": "unbounded integers"}),
+		Assumptions: apiAssumptions, Stubs: apiStubs, Outside: apiOutside,
+	})
+
+	// ------------------------------------------------------------ C08
+	Register(&Check{
+		ID: "C08", Title: "save reserves funds",
+		Files: apiFiles, LoadPkgs: apiLoad, InitPkgs: apiInit,
+		Cases: func(tier string) []Case {
+			var cases []Case
+			saves := []string{"save %N from @a", "save [USD *] from @a"}
+			sends := []string{sendFixed("USD", "@a", "@d"), sendAll("USD", "@a", "@d"), sendFixed("USD", "@a allowing overdraft up to %K", "@d"),
+				sendFixed("USD", "{ @a @b }", "@d"), sendAll("USD", "{ @b @a allowing overdraft up to %K }", "@d"), sendFixed("USD", "@a allowing unbounded overdraft", "@d")}
+			for _, sv := range saves {
+				for _, sd := range sends {
+					cases = append(cases, apiCase("C08", "save;send", []string{sv, sd}, nil))
+				}
+			}
+			cases = append(cases, apiCase("C08", "save-var-account", []string{"save %N from $acc", sends[0]}, map[string][2]string{"acc": {"account", "acc:a"}}))
+			cases = append(cases, apiCase("C08", "save-other-asset", []string{"save [EUR *] from @a", sends[0]}, nil))
+			cases = append(cases, apiCase("C08", "save-only", []string{"save %N from @a"}, nil))
+			cases = append(cases, apiCase("C08", "send;save;send", []string{sendFixed("USD", "@world", "@a"), "save %N from @a", sends[0]}, nil))
+			if tier == "thorough" {
+				for _, s1 := range saves {
+					for _, s2 := range saves {
+						for _, sd := range sends[:4] {
+							cases = append(cases, apiCase("C08", "save;save;send", []string{s1, s2, sd}, nil))
+							cases = append(cases, apiCase("C08", "save;send;send", []string{s1, sd, sends[0]}, nil))
+							cases = append(cases, apiCase("C08", "send;save;send", []string{sd, s2, sends[1]}, nil))
+						}
+					}
+				}
+			}
+			return cases
+		},
+		Bounds: stdBounds(
+			map[string]interface{}{"saves": "1", "sends": "1..2", "numbers": "unbounded integers (balance any sign, saved amount below/equal/above)"},
+			map[string]interface{}{"saves": "1..2", "sends": "1..2, all orders", "numbers": "unbounded integers"}),
+		Assumptions: apiAssumptions, Stubs: apiStubs, Outside: apiOutside,
+	})
+}
